@@ -1,6 +1,6 @@
 /-
 C16 — exclusion markers remove exactly the marked lines and branches.
-Property theorems about `FileFilter.create` (model of src/file_filter.rs 39-120) and
+Property theorems about `FileFilter.create` (model of src/file_filter.rs 39-109) and
 `FileFilter.applyFilters` (model of the loop at src/path_rewriting.rs 373-386).
 Helper lemmas: GrcovModel/Lemmas/FileFilter.lean.
 
@@ -11,190 +11,82 @@ unterminated, start and stop on one line, overlapping line and branch regions, i
 all line numbers `n` and all coverage records `c`. The hypothesis `ms.length ≤ U32MAX` is the
 type of the line number (`(number + 1) as u32`): a source of 2^32 or more lines is out of scope.
 
-Status. The full statements `C16_lines_stmt`, `C16_branches_stmt` and `C16_independent_stmt` are
-FALSE of the code (`…_false`, closed witnesses): inside a branch region a line marker is ignored,
-inside a line region a branch-line marker is ignored (file_filter.rs 93-103: the region flags are
-tested before the single-line markers and the single-line markers are an `else` of both flags).
-`…_partial` are the same statements under exactly the guard the witnesses violate, and
-`…_guard_exact` prove that the guard is necessary as well as sufficient. `C16_lines_actual` /
-`C16_branches_actual` say what the code does instead. Everything else (coverage effect of the
-filter list, nothing else changes, no options / unreadable source ⇒ identity, only lines of the
-file are touched, each at most once and in order) is proved at full strength.
+Status. Every statement is proved at full strength, with no guard: `C16_lines`, `C16_branches`
+(removed iff own marker or own region), `C16_independent` (each dimension depends only on its own
+three options and three marker bits), the coverage effect of the filter list, nothing else
+changes, no options / unreadable source ⇒ identity, only lines of the file are touched, each at
+most once and in order.
+History: on the tree before /repo commit c7806a2 the first three were false (a single-line marker
+on a line lying only in a region of the other kind was ignored: the region flags were tested
+first and the single-line markers were an `else` of both flags). `witnessA` / `witnessB` below
+are the former counter-examples; they are now examples of the theorems and corpus cases of the
+harness.
 -/
 import GrcovModel.Lemmas.FileFilter
 namespace Grcov.Props.C16
 open Grcov AList Grcov.FileFilter
 
-/-! ## Full-strength statements -/
+/-! ## The exclusion rule -/
 
 /-- Line coverage of source line `n` is removed iff `n` matches the line marker or lies in a
 region from a start-marker line (inclusive) to the next later stop-marker line (exclusive). -/
-def C16_lines_stmt : Prop :=
-  ∀ (o : Opts) (ms : List Bits) (n : Nat), ms.length ≤ U32MAX → 1 ≤ n → n ≤ ms.length →
-    (removesLine (create o true ms) n ↔ lineMarker o ms n ∨ inLineRegion o ms n)
+theorem C16_lines (o : Opts) (ms : List Bits) (n : Nat) (hlen : ms.length ≤ U32MAX)
+    (h1 : 1 ≤ n) (h2 : n ≤ ms.length) :
+    removesLine (create o true ms) n ↔ lineMarker o ms n ∨ inLineRegion o ms n :=
+  removesLine_iff o ms hlen n h1 h2
 
 /-- The same rule for branch coverage, with the three branch markers. -/
-def C16_branches_stmt : Prop :=
-  ∀ (o : Opts) (ms : List Bits) (n : Nat), ms.length ≤ U32MAX → 1 ≤ n → n ≤ ms.length →
-    (removesBranch (create o true ms) n ↔ brMarker o ms n ∨ inBrRegion o ms n)
+theorem C16_branches (o : Opts) (ms : List Bits) (n : Nat) (hlen : ms.length ≤ U32MAX)
+    (h1 : 1 ≤ n) (h2 : n ≤ ms.length) :
+    removesBranch (create o true ms) n ↔ brMarker o ms n ∨ inBrRegion o ms n :=
+  removesBranch_iff o ms hlen n h1 h2
 
-/-- The two dimensions act independently: what happens to the line data depends only on the three
-line options and the three line-marker bits of every source line (and symmetrically). -/
-def C16_independent_stmt : Prop :=
-  ∀ (o o' : Opts) (ms ms' : List Bits) (n : Nat), ms.length ≤ U32MAX →
+/-- The two dimensions act independently: what happens to the line data of any `n` depends only
+on the three line options and the three line-marker bits of every source line – the branch
+options and branch markers may differ arbitrarily – and symmetrically for the branch data. -/
+theorem C16_independent (o o' : Opts) (ms ms' : List Bits) (n : Nat) (hlen : ms.length ≤ U32MAX) :
     ((o.line = o'.line ∧ o.start = o'.start ∧ o.stop = o'.stop) → ms.map lineDim = ms'.map lineDim →
       (removesLine (create o true ms) n ↔ removesLine (create o' true ms') n)) ∧
     ((o.brLine = o'.brLine ∧ o.brStart = o'.brStart ∧ o.brStop = o'.brStop) →
       ms.map brDim = ms'.map brDim →
-      (removesBranch (create o true ms) n ↔ removesBranch (create o' true ms') n))
-
-/-! ## The full statements are false of the code -/
-
-/-- all six options configured -/
-def allOpts : Opts := ⟨true, true, true, true, true, true⟩
-/-- a line on which no regex matches -/
-def plain : Bits := ⟨false, false, false, false, false, false⟩
-/-- witness A: line 1 starts a branch region, line 2 carries the line marker -/
-def witnessA : List Bits := [{ plain with brStart := true }, { plain with line := true }]
-/-- witness B: line 1 starts a line region, line 2 carries the branch-line marker -/
-def witnessB : List Bits := [{ plain with start := true }, { plain with brLine := true }]
-
-/-- On witness A the code emits `Branch(1), Branch(2)`: line 2 keeps its line count although it
-matches the line marker. -/
-theorem C16_lines_false : ¬ C16_lines_stmt := by
-  intro h
-  have h2 := (h allOpts witnessA 2 (by decide) (by decide) (by decide)).2
-    (Or.inl ⟨rfl, { plain with line := true }, rfl, rfl⟩)
-  revert h2; decide
-
-/-- On witness B the code emits `Line(1), Line(2)`: line 2 keeps its branch data although it
-matches the branch-line marker. -/
-theorem C16_branches_false : ¬ C16_branches_stmt := by
-  intro h
-  have h2 := (h allOpts witnessB 2 (by decide) (by decide) (by decide)).2
-    (Or.inl ⟨rfl, { plain with brLine := true }, rfl, rfl⟩)
-  revert h2; decide
-
-/-- Deleting the branch-region start of witness A (a change in the branch dimension only) changes
-what happens to the LINE data of line 2. -/
-theorem C16_independent_false : ¬ C16_independent_stmt := by
-  intro h
-  have h2 := (h allOpts allOpts witnessA [plain, { plain with line := true }] 2 (by decide)).1
-    ⟨rfl, rfl, rfl⟩ (by decide)
-  revert h2; decide
-
-/-- The same defect seen on a coverage record: with witness A, the count of line 2 survives
-`rewrite_paths` (it should be removed), and only its branch vector goes. -/
-theorem C16_witness_on_coverage :
-    rewrite allOpts true witnessA
-        { lines := [(1, 3), (2, 5)], branches := [(2, [true, false])], functions := [] }
-      = { lines := [(1, 3), (2, 5)], branches := [], functions := [] } := by decide
-
-/-! ## What the code does, and the provable part -/
-
-/-- Line dimension, actual behaviour: removed iff in a line region, or line marker outside every
-branch region. -/
-theorem C16_lines_actual (o : Opts) (ms : List Bits) (n : Nat) (hlen : ms.length ≤ U32MAX)
-    (h1 : 1 ≤ n) (h2 : n ≤ ms.length) :
-    removesLine (create o true ms) n ↔
-      inLineRegion o ms n ∨ (lineMarker o ms n ∧ ¬ inBrRegion o ms n) :=
-  removesLine_actual o ms hlen n h1 h2
-
-/-- Branch dimension, actual behaviour: removed iff in a branch region, or branch-line marker
-outside every line region. -/
-theorem C16_branches_actual (o : Opts) (ms : List Bits) (n : Nat) (hlen : ms.length ≤ U32MAX)
-    (h1 : 1 ≤ n) (h2 : n ≤ ms.length) :
-    removesBranch (create o true ms) n ↔
-      inBrRegion o ms n ∨ (brMarker o ms n ∧ ¬ inLineRegion o ms n) :=
-  removesBranch_actual o ms hlen n h1 h2
-
-/-- The line statement holds for line `n` under the guard: `n` is not a line-marker line that
-lies inside a branch region but outside every line region. -/
-theorem C16_lines_partial (o : Opts) (ms : List Bits) (n : Nat) (hlen : ms.length ≤ U32MAX)
-    (h1 : 1 ≤ n) (h2 : n ≤ ms.length)
-    (guard : lineMarker o ms n → inBrRegion o ms n → inLineRegion o ms n) :
-    removesLine (create o true ms) n ↔ lineMarker o ms n ∨ inLineRegion o ms n := by
-  rw [C16_lines_actual o ms n hlen h1 h2]
-  constructor
-  · rintro (h | ⟨h, _⟩)
-    · exact Or.inr h
-    · exact Or.inl h
-  · rintro (h | h)
-    · by_cases hb : inBrRegion o ms n
-      · exact Or.inl (guard h hb)
-      · exact Or.inr ⟨h, hb⟩
-    · exact Or.inl h
-
-/-- The branch statement holds for line `n` under the guard: `n` is not a branch-line-marker line
-that lies inside a line region but outside every branch region. -/
-theorem C16_branches_partial (o : Opts) (ms : List Bits) (n : Nat) (hlen : ms.length ≤ U32MAX)
-    (h1 : 1 ≤ n) (h2 : n ≤ ms.length)
-    (guard : brMarker o ms n → inLineRegion o ms n → inBrRegion o ms n) :
-    removesBranch (create o true ms) n ↔ brMarker o ms n ∨ inBrRegion o ms n := by
-  rw [C16_branches_actual o ms n hlen h1 h2]
-  constructor
-  · rintro (h | ⟨h, _⟩)
-    · exact Or.inr h
-    · exact Or.inl h
-  · rintro (h | h)
-    · by_cases hb : inLineRegion o ms n
-      · exact Or.inl (guard h hb)
-      · exact Or.inr ⟨h, hb⟩
-    · exact Or.inl h
-
-/-- The guard of `C16_lines_partial` is exactly what is needed: where it fails, the statement
-fails. -/
-theorem C16_lines_guard_exact (o : Opts) (ms : List Bits) (n : Nat) (hlen : ms.length ≤ U32MAX)
-    (h1 : 1 ≤ n) (h2 : n ≤ ms.length) :
-    (removesLine (create o true ms) n ↔ lineMarker o ms n ∨ inLineRegion o ms n) ↔
-      (lineMarker o ms n → inBrRegion o ms n → inLineRegion o ms n) := by
-  constructor
-  · intro h hm hb
-    have := (C16_lines_actual o ms n hlen h1 h2).1 (h.2 (Or.inl hm))
-    rcases this with h | ⟨_, h⟩
-    · exact h
-    · exact absurd hb h
-  · exact C16_lines_partial o ms n hlen h1 h2
-
-theorem C16_branches_guard_exact (o : Opts) (ms : List Bits) (n : Nat) (hlen : ms.length ≤ U32MAX)
-    (h1 : 1 ≤ n) (h2 : n ≤ ms.length) :
-    (removesBranch (create o true ms) n ↔ brMarker o ms n ∨ inBrRegion o ms n) ↔
-      (brMarker o ms n → inLineRegion o ms n → inBrRegion o ms n) := by
-  constructor
-  · intro h hm hb
-    have := (C16_branches_actual o ms n hlen h1 h2).1 (h.2 (Or.inl hm))
-    rcases this with h | ⟨_, h⟩
-    · exact h
-    · exact absurd hb h
-  · exact C16_branches_partial o ms n hlen h1 h2
-
-/-- Independence, provable part: two configurations / sources that agree on the line dimension
-treat the line data of `n` alike provided neither has a line marker hidden in a branch region at
-`n` (and symmetrically for the branch data). -/
-theorem C16_independent_partial (o o' : Opts) (ms ms' : List Bits) (n : Nat)
-    (hlen : ms.length ≤ U32MAX) (h1 : 1 ≤ n) (h2 : n ≤ ms.length) :
-    ((o.line = o'.line ∧ o.start = o'.start ∧ o.stop = o'.stop) → ms.map lineDim = ms'.map lineDim →
-      (lineMarker o ms n → inBrRegion o ms n → inLineRegion o ms n) →
-      (lineMarker o' ms' n → inBrRegion o' ms' n → inLineRegion o' ms' n) →
-      (removesLine (create o true ms) n ↔ removesLine (create o' true ms') n)) ∧
-    ((o.brLine = o'.brLine ∧ o.brStart = o'.brStart ∧ o.brStop = o'.brStop) →
-      ms.map brDim = ms'.map brDim →
-      (brMarker o ms n → inLineRegion o ms n → inBrRegion o ms n) →
-      (brMarker o' ms' n → inLineRegion o' ms' n → inBrRegion o' ms' n) →
       (removesBranch (create o true ms) n ↔ removesBranch (create o' true ms') n)) := by
   constructor
-  · intro ho hm g g'
+  · intro ho hm
     have hl : ms'.length = ms.length := by
       have := congrArg List.length hm; simpa using this.symm
-    rw [C16_lines_partial o ms n hlen h1 h2 g,
-      C16_lines_partial o' ms' n (by omega) h1 (by omega) g']
-    exact lineSpec_congr o o' ms ms' ho hm n
-  · intro ho hm g g'
+    by_cases hn : 1 ≤ n ∧ n ≤ ms.length
+    · rw [removesLine_iff o ms hlen n hn.1 hn.2,
+        removesLine_iff o' ms' (by omega) n hn.1 (by omega)]
+      exact lineSpec_congr o o' ms ms' ho hm n
+    · constructor
+      · intro h; exact absurd (removes_range o ms hlen true n (Or.inl h)) hn
+      · intro h
+        have := removes_range o' ms' (by omega) true n (Or.inl h)
+        exact absurd (by omega) hn
+  · intro ho hm
     have hl : ms'.length = ms.length := by
       have := congrArg List.length hm; simpa using this.symm
-    rw [C16_branches_partial o ms n hlen h1 h2 g,
-      C16_branches_partial o' ms' n (by omega) h1 (by omega) g']
-    exact brSpec_congr o o' ms ms' ho hm n
+    by_cases hn : 1 ≤ n ∧ n ≤ ms.length
+    · rw [removesBranch_iff o ms hlen n hn.1 hn.2,
+        removesBranch_iff o' ms' (by omega) n hn.1 (by omega)]
+      exact brSpec_congr o o' ms ms' ho hm n
+    · constructor
+      · intro h; exact absurd (removes_range o ms hlen true n (Or.inr h)) hn
+      · intro h
+        have := removes_range o' ms' (by omega) true n (Or.inr h)
+        exact absurd (by omega) hn
+
+/-- All four outcomes occur and are decided dimension by dimension: a line loses its line data,
+its branch data, both or neither exactly as `C16_lines` and `C16_branches` say. -/
+theorem C16_four_outcomes (o : Opts) (ms : List Bits) (n : Nat) (hlen : ms.length ≤ U32MAX)
+    (h1 : 1 ≤ n) (h2 : n ≤ ms.length) :
+    (FT.both n ∈ create o true ms ↔
+      (lineMarker o ms n ∨ inLineRegion o ms n) ∧ (brMarker o ms n ∨ inBrRegion o ms n)) ∧
+    (FT.line n ∈ create o true ms ↔
+      (lineMarker o ms n ∨ inLineRegion o ms n) ∧ ¬ (brMarker o ms n ∨ inBrRegion o ms n)) ∧
+    (FT.branch n ∈ create o true ms ↔
+      ¬ (lineMarker o ms n ∨ inLineRegion o ms n) ∧ (brMarker o ms n ∨ inBrRegion o ms n)) :=
+  four_outcomes o ms hlen n h1 h2
 
 /-! ## Effect on the coverage record (full strength) -/
 
@@ -255,49 +147,55 @@ theorem C16_region_step (start stop : Nat → Prop) (n : Nat) :
 
 /-! ## Non-vacuity: concrete sources that satisfy the hypotheses and exercise every branch -/
 
+/-- all six options configured -/
+def allOpts : Opts := ⟨true, true, true, true, true, true⟩
+/-- a line on which no regex matches -/
+def plain : Bits := ⟨false, false, false, false, false, false⟩
+/-- former counter-example A: line 1 starts a branch region, line 2 carries the line marker -/
+def witnessA : List Bits := [{ plain with brStart := true }, { plain with line := true }]
+/-- former counter-example B: line 1 starts a line region, line 2 carries the branch-line marker -/
+def witnessB : List Bits := [{ plain with start := true }, { plain with brLine := true }]
+/-- former counter-example C: one line with the start marker and the branch-line marker -/
+def witnessC : List Bits := [{ plain with start := true, brLine := true }]
+
+/-- the marker inside the region of the other kind is honoured (before c7806a2: `B1,B2`,
+`L1,L2`, `L1`) -/
+example : create allOpts true witnessA = [.branch 1, .both 2] ∧
+    create allOpts true witnessB = [.line 1, .both 2] ∧
+    create allOpts true witnessC = [.both 1] := by decide
+
+example : rewrite allOpts true witnessA
+        { lines := [(1, 3), (2, 5)], branches := [(2, [true, false])], functions := [] }
+      = { lines := [(1, 3)], branches := [], functions := [] } := by decide
+
 /-- nine lines: line marker; start; plain; stop+start on one line of an open region (closes and
-reopens); stop+brStart; brLine inside the branch region; brStop+line+brLine (both single-line
-markers); start (never terminated); plain -/
+reopens); stop+brStart; line marker inside the branch region; brStop+line+brLine (both
+single-line markers); start (never terminated); brLine inside the line region -/
 def exSrc : List Bits :=
   [ { plain with line := true },
     { plain with start := true },
     plain,
     { plain with stop := true, start := true },
     { plain with stop := true, brStart := true },
-    { plain with brLine := true },
+    { plain with line := true },
     { plain with brStop := true, line := true, brLine := true },
     { plain with start := true },
-    plain ]
+    { plain with brLine := true } ]
 
 example : create allOpts true exSrc
-    = [.line 1, .line 2, .line 3, .line 4, .branch 5, .branch 6, .both 7, .line 8, .line 9] := by
+    = [.line 1, .line 2, .line 3, .line 4, .branch 5, .both 6, .both 7, .line 8, .both 9] := by
   decide
 
-/-- hypotheses of the partial theorems hold on line 6 of `exSrc` (no line region there) … -/
-example : brMarker allOpts exSrc 6 → inLineRegion allOpts exSrc 6 → inBrRegion allOpts exSrc 6 :=
-  fun _ _ => ⟨5, by decide, ⟨rfl, _, rfl, rfl⟩, fun t h1 h2 => by
-    have : t = 6 := by omega
-    subst this
-    rintro ⟨_, m, hm, hb⟩
-    simp [lineAt, exSrc, plain] at hm
-    subst hm; simp at hb⟩
+/-- the hypotheses of `C16_lines` hold for line 6 of `exSrc` and its right-hand side is true
+there through the marker alone (line 6 is in no line region: line 5 stops it) -/
+example : exSrc.length ≤ U32MAX ∧ 1 ≤ 6 ∧ 6 ≤ exSrc.length ∧ lineMarker allOpts exSrc 6 :=
+  ⟨by decide, by decide, by decide, rfl, _, rfl, rfl⟩
 
-/-- … and the guard of `C16_lines_partial` fails on line 2 of witness A -/
-example : ¬ (lineMarker allOpts witnessA 2 → inBrRegion allOpts witnessA 2 →
-    inLineRegion allOpts witnessA 2) := by
-  intro h
-  have hm : lineMarker allOpts witnessA 2 := ⟨rfl, _, rfl, rfl⟩
-  have hb : inBrRegion allOpts witnessA 2 :=
-    ⟨1, by decide, ⟨rfl, _, rfl, rfl⟩, fun t h1 h2 => by
-      have : t = 2 := by omega
-      subst this
-      rintro ⟨_, m, hm, hb⟩
-      simp [lineAt, witnessA, plain] at hm
-      subst hm; simp at hb⟩
-  obtain ⟨s, hs, ⟨_, m, hm', hst⟩, _⟩ := h hm hb
-  have : s = 0 ∨ s = 1 ∨ s = 2 := by omega
-  rcases this with rfl | rfl | rfl <;> simp [lineAt, witnessA, plain] at hm' <;>
-    (subst hm'; simp at hst)
+/-- the hypotheses of `C16_independent`: `exSrc` and a copy without any branch marker agree on
+the line dimension -/
+example : exSrc.map lineDim
+    = (exSrc.map fun m => { m with brLine := false, brStart := false, brStop := false }).map lineDim := by
+  decide
 
 /-- partial option sets: only `--excl-br-start` ⇒ an unterminated branch region to the end -/
 example : create ⟨false, false, false, false, true, false⟩ true exSrc
